@@ -1,7 +1,9 @@
+// c01probe: run arbitrary operation text against the configuration / universe of a replay file.
+//   c01probe FILE 'query' ['{"vars":..}']      -> verdict, requests
+//   c01probe FILE -plan 'query'                 -> plan
 package main
 
 import (
-	"crypto/sha1"
 	"encoding/json"
 	"fmt"
 	"os"
@@ -26,23 +28,35 @@ func main() {
 		panic(err)
 	}
 	defer lab.Close()
-	seen := map[string]int{}
-	first := map[string]string{}
-	for i := 0; i < 400; i++ {
-		p, err := lab.Plan(rp.Case.Op.Text(), rp.Case.Op.Name)
-		if err != nil {
-			p = "ERR " + err.Error()
-		}
-		h := fmt.Sprintf("%x", sha1.Sum([]byte(p)))[:10]
-		seen[h]++
-		if _, ok := first[h]; !ok {
-			first[h] = p
+	args := os.Args[2:]
+	if len(args) > 0 && args[0] == "-plan" {
+		p, err := lab.Plan(args[1], "")
+		fmt.Println(p, err)
+		return
+	}
+	op := rp.Case.Op.Text()
+	vars := []byte(rp.Case.Op.VariablesJSON())
+	if len(args) > 0 {
+		op = args[0]
+		vars = []byte("{}")
+	}
+	if len(args) > 1 {
+		vars = []byte(args[1])
+	}
+	v := fedlab.Check(lab, op, "", vars, nil)
+	fmt.Println("op:", op)
+	fmt.Println("failed:", v.Failed(), v.FailDetail(), v.LabError)
+	if v.Gateway != nil {
+		fmt.Println("gw :", string(v.Gateway.Response))
+		for _, q := range v.Gateway.Requests {
+			vs := ""
+			if q.Variables != nil {
+				vs = q.Variables.String()
+			}
+			fmt.Printf("  [%d %s] %s %s\n      -> %s\n", q.Index, q.Subgraph, q.Query, vs, string(q.Response))
 		}
 	}
-	fmt.Println(seen)
-	if len(os.Args) > 2 {
-		for h, p := range first {
-			os.WriteFile("/tmp/plan-"+h+".txt", []byte(p), 0o644)
-		}
+	if v.Ref != nil {
+		fmt.Println("ref:", v.Ref.Data.String(), v.Ref.NErrors)
 	}
 }
